@@ -247,3 +247,34 @@ Definition sx_perr (e : perr) : sx :=
   | PDataDup l => sx_zs [7; l] | PVariable l => sx_zs [8; l] | PMemSize w => sx_zs [9; w]
   | PMemAddr a => sx_zs [10; a] | PUncaught l => sx_zs [11; l]
   end.
+
+(** * RISC-V assembler *)
+From ArchSim Require Import Model.Asm.
+
+Definition dregtok (s : sx) : regtok :=
+  if dz (dnth s 0) =? 0 then RAbi (dzs (dnth s 1)) else RX (dzs (dnth s 1)).
+Definition ditok (s : sx) : itok :=
+  {| k_mn := dz (dnth s 0);
+     k_rd := dopt dregtok (dnth s 1); k_rs1 := dopt dregtok (dnth s 2); k_rs2 := dopt dregtok (dnth s 3);
+     k_reg1 := dopt dregtok (dnth s 4); k_reg2 := dopt dregtok (dnth s 5); k_rs := dopt dregtok (dnth s 6);
+     k_imm := dopt dzs (dnth s 7); k_csr := dopt dzs (dnth s 8); k_uimm := dopt dzs (dnth s 9);
+     k_offset := dopt dzs (dnth s 10); k_label := dopt dz (dnth s 11);
+     k_var := dopt (fun v => (dz (dnth v 0), dopt dzs (dnth v 1))) (dnth s 12) |}.
+Definition dtbody (s : sx) : tbody :=
+  let k := dz (dnth s 0) in
+  if k =? 0 then BStr (dz (dnth s 1)) else if k =? 1 then BIns (ditok (dnth s 1)) else BOther.
+Definition drline (s : sx) : Z * rline :=
+  let ln := dz (dnth s 0) in
+  let k := dz (dnth s 1) in
+  (ln,
+   if k =? 0 then RDirective (dz (dnth s 2))
+   else if k =? 1 then RVarDecl (dz (dnth s 2)) (dz (dnth s 3)) (map dzs (dl (dnth s 4)))
+   else if k =? 2 then RStrDecl (dz (dnth s 2)) (dzs (dnth s 3))
+   else if k =? 3 then RZeroDecl (dz (dnth s 2)) (dzs (dnth s 3))
+   else if k =? 4 then RLabelDecl (dz (dnth s 2))
+   else RInstr (dopt dz (dnth s 2)) (dtbody (dnth s 3))).
+
+Definition sx_image (img : image) : sx :=
+  Lx [ sx_list (fun i => Lx [sx_instr i; sx_str (instr_repr i)]) (i_instrs img);
+       sx_zmap_sorted (i_labels img);
+       sx_list (fun v : Z * (Z * Z) => sx_zs [fst v; fst (snd v); snd (snd v)]) (i_vars img) ].
